@@ -32,6 +32,9 @@ class H3Run:
                 rc1, _, _ = sh(f"timeout 300 {d}/p{k} > {d}/p{k}.real 2> {d}/p{k}.err", timeout=400)
                 rc2, out2, _ = sh(f"{self.mdir}/h3_model {d}/p{k}.cases > {d}/p{k}.model 2> {d}/p{k}.merr", timeout=1800)
                 if rc2: return ("model", open(f"{d}/p{k}.merr").read()[-800:])
+                # the driver mirror alone: grammar_info, tables and lexer automaton taken from the REAL dump
+                rc3, out3, _ = sh(f"{self.mdir}/h3_model {d}/p{k}.cases --real {d}/p{k}.real > {d}/p{k}.model_rt 2> {d}/p{k}.merr_rt", timeout=1800)
+                if rc3: return ("model", open(f"{d}/p{k}.merr_rt").read()[-800:])
                 os.remove(f"{d}/p{k}")
                 return ("ok", rc1)
             with concurrent.futures.ThreadPoolExecutor(max_workers=8) as ex:
@@ -43,16 +46,18 @@ class H3Run:
         self.status = json.load(open(d + "/status.json"))
         for kind, out in self.status:
             if kind == "compile": self.build_err = out
-        self.meta = {}; self.real = {}; self.model = {}; self.real_lines = {}; self.model_lines = {}; self.crashed = []
+        self.twin = {}; self.model_rt = {}; self.meta = {}; self.real = {}; self.model = {}; self.real_lines = {}; self.model_lines = {}; self.crashed = []
         for k in range(t["nprog"]):
             if self.status[k][0] != "ok": continue
             m = json.load(open(f"{d}/p{k}.meta.json"))
-            rc = split_cases(read(f"{d}/p{k}.real")); mc = split_cases(read(f"{d}/p{k}.model"))
+            rc = split_cases(read(f"{d}/p{k}.real")); mc = split_cases(read(f"{d}/p{k}.model")); mrt = split_cases(read(f"{d}/p{k}.model_rt"))
             for cid, mt in m.items():
                 gid = f"{k}.{cid}"; self.meta[gid] = mt
                 if cid not in rc: self.crashed.append(gid); continue
                 self.real_lines[gid] = rc[cid]; self.model_lines[gid] = mc.get(cid)
                 self.real[gid] = parse_h3_case(rc[cid]); self.model[gid] = parse_h3_case(mc[cid]) if cid in mc else None
+                self.model_rt[gid] = parse_h3_case(mrt[cid]) if cid in mrt else None
+                if mt.get("constexpr") and (cid + "r") in rc: self.twin[gid] = parse_h3_case(rc[cid + "r"])
 
     # ---- the documented rule analysis, computed independently from the raw description (names as the user wrote them)
     def expected_gi(self, gid):
